@@ -31,7 +31,8 @@ EXPLANATION = (
     'and MockMeta takes each facet from the model signature; R-C01.6 every '
     'columns= handed to the scanned database state is built from Field.column '
     '(real column names), never from field names / attnames; '
-    'R-C01.7 the optimiser tests whether a mutation was marked as removed through a hash-based container (BaseMutation.__eq__ is structural, __hash__ is identity): a list would drop a kept mutation that merely equals a removed one.')
+    'R-C01.7 the optimiser tests whether a mutation was marked as removed through a hash-based container (BaseMutation.__eq__ is structural, __hash__ is identity): a list would drop a kept mutation that merely equals a removed one; '
+    'R-C01.8 an alter-table item whose producer changes field.db_index puts its field where the rebuild computes new_fields from (the rebuild re-creates field indexes from that list, built from its own model); R-C01.9 the deleted-column filter of the rebuild ranges over the existing fields only, never over added_fields.')
 NOT_DECIDED = (
     'That the generated SQL executes and yields the same schema as creating '
     'the models from scratch, for any schema/sequence (needs SQLite and '
@@ -718,12 +719,133 @@ def r6_column_kind(ctx):
     ctx.floor('database-state index calls with columns=', n, 8)
 
 
+def r8_index_state_reaches_rebuild(ctx, rule_id='R-C01.8'):
+    """The SQLite rebuild re-creates the per-field indexes from the field
+    list of the new table (`new_fields`, handed to sql_indexes_for_model).
+    A queued item whose producer changes whether a field is indexed
+    (`field.db_index = ...`) carries that state only in the field object it
+    queues - built from the producer's model, which for a merged, non-first
+    operation is not the rebuild's model.  So the dispatch branch of every
+    such item must put its field where `new_fields` is computed from;
+    otherwise the merged run loses (or resurrects) the index that a
+    one-at-a-time run creates (or drops)."""
+    ctx.rule(rule_id)
+    p = ctx.program
+    eff = sqlite_effective_methods(ctx)
+    tags = set()
+    for t, d, m in sqlite_tag_producers(ctx, eff):
+        if any(isinstance(a, ast.Assign) and any(
+                isinstance(x, ast.Attribute) and x.attr == 'db_index'
+                for x in a.targets) for a in walk_no_nested(m.node)):
+            keys = dict_literal_keys(d)
+            if 'field' in keys:
+                tags.add(t)
+    ctx.floor('alter-table tags whose producer sets field.db_index',
+              len(tags), 2)
+    consumer = p.func('db.sqlite3', 'SQLiteAlterTableSQLResult.to_sql')
+    chain, _else = _dispatch_chain(consumer, 'op')
+    g = ctx.cfg(consumer)
+    from ..flow import ReachingDefs
+    rd = ReachingDefs(g, consumer.params)
+    # containers new_fields is computed from
+    srcs = set()
+    for n in g.nodes:
+        a = n.ast
+        if n.kind == 'stmt' and isinstance(a, ast.Assign) and any(
+                isinstance(t, ast.Name) and t.id == 'new_fields'
+                for t in a.targets):
+            bound = {x.id for c in ast.walk(a.value)
+                     if isinstance(c, ast.comprehension)
+                     for x in ast.walk(c.target) if isinstance(x, ast.Name)}
+            srcs |= {x.id for x in ast.walk(a.value)
+                     if isinstance(x, ast.Name)} - bound
+    if not srcs:
+        raise AnalysisError('%s: new_fields is not computed in to_sql' %
+                            rule_id)
+    for tag, body in chain:
+        if tag not in tags:
+            continue
+        stored = set()
+        for st in body:
+            for x in ast.walk(st):
+                if isinstance(x, ast.Call) and isinstance(x.func,
+                                                          ast.Attribute) \
+                        and isinstance(x.func.value, ast.Name) and \
+                        x.func.attr in ('append', 'add', 'setdefault',
+                                        'update', 'extend', 'insert'):
+                    stored.add(x.func.value.id)
+                if isinstance(x, ast.Assign):
+                    for t in x.targets:
+                        if isinstance(t, ast.Subscript) and \
+                                isinstance(t.value, ast.Name):
+                            stored.add(t.value.id)
+        if stored & srcs:
+            ctx.ok(consumer, '%r items put their field where the rebuilt '
+                   'table\'s field list comes from (%s)' % (
+                       tag, ', '.join(sorted(stored & srcs))), body[0])
+        else:
+            ctx.finding(consumer, body[0], 'a %r item only records its field '
+                        'in %s; the rebuild re-creates field indexes from '
+                        'new_fields (%s), i.e. from the rebuild\'s own model: '
+                        'merged as a non-first operation the changed db_index '
+                        'is lost' % (tag, sorted(stored) or '<nothing>',
+                                     ', '.join(sorted(srcs))),
+                        key='index-state-not-in-new-fields:%s' % tag)
+
+
+def r9_deleted_filter_scope(ctx, rule_id='R-C01.9'):
+    """`deleted_columns` names columns of the *existing* table.  The merged
+    rebuild must apply that filter to the old fields only: a field queued by
+    ADD COLUMN under the name of a column deleted earlier in the same group
+    (DeleteField x, AddField x) is a new column and must survive."""
+    ctx.rule(rule_id)
+    p = ctx.program
+    f = p.func('db.sqlite3', 'SQLiteAlterTableSQLResult.to_sql')
+    n_filters = 0
+    for c in walk_no_nested(f.node, include_lambda=True):
+        gens = []
+        if isinstance(c, (ast.ListComp, ast.GeneratorExp, ast.SetComp)):
+            gens = [(g.iter, g.ifs) for g in c.generators]
+        for it, ifs in gens:
+            if not any('deleted_columns' in unparse(t) and isinstance(
+                    t, (ast.Compare, ast.UnaryOp)) for t in ifs):
+                continue
+            n_filters += 1
+            names = {x.id for x in ast.walk(it) if isinstance(x, ast.Name)}
+            if 'added_fields' in names:
+                ctx.finding(f, c, 'the deleted-column filter also ranges over '
+                            'added_fields: a column that is deleted and added '
+                            'back under the same name in one merged rebuild '
+                            'is dropped from the new table (DeleteField x, '
+                            'AddField x succeeds one at a time)',
+                            key='deleted-filter-over-added-fields')
+            else:
+                ctx.ok(f, 'deleted-column filter ranges over %s only' %
+                       ', '.join(sorted(names)), c)
+    for l in walk_no_nested(f.node):
+        if isinstance(l, ast.For) and any(
+                'deleted_columns' in unparse(t) for t in ast.walk(l)
+                if isinstance(t, ast.Compare)):
+            n_filters += 1
+            names = {x.id for x in ast.walk(l.iter) if isinstance(x, ast.Name)}
+            if 'added_fields' in names:
+                ctx.finding(f, l, 'a loop filtered by deleted_columns ranges '
+                            'over added_fields', key='deleted-filter-over-'
+                            'added-fields')
+            else:
+                ctx.ok(f, 'loop filtered by deleted_columns ranges over %s' %
+                       ', '.join(sorted(names)), l)
+    ctx.floor('uses of the deleted-column filter in to_sql', n_filters, 2)
+
+
 def r7_optimiser_identity(ctx):
     from .c03 import r7_identity_membership
     r7_identity_membership(ctx, rule_id='R-C01.7')
 
 
 def run(ctx):
+    r9_deleted_filter_scope(ctx)
+    r8_index_state_reaches_rebuild(ctx)
     r7_optimiser_identity(ctx)
     r6_column_kind(ctx)
     r1_op_type_protocol(ctx)
